@@ -299,6 +299,9 @@ func kMonitor(w *kWorld, op kOp, cls Class, err error, before, after *kSnap, tri
 	}
 	wasTrip := *trip
 	trip.active = false
+	if cls == ClassPanic && err != nil && strings.Contains(err.Error(), "invalid state") && !strings.Contains(err.Error(), "deposit B must be positive") {
+		return "internal-assertions-unreachable", "internal-assertion-fired", err.Error()
+	}
 	if cls != ClassOk {
 		if what := kSameState(before, after); what != "" {
 			return "failed-op-no-change", "failed-op-changed-state", what
